@@ -623,7 +623,7 @@ pub fn run(run: &mut Run) -> Result<(), String> {
                     plan.raws.push((Box::new(EpUniverse::full()), b(0, 0)));
                 }
             } else if q {
-                plan.start = Some(b(3, 1));
+                plan.start = Some(b(4, 1));
                 plan.mid = Some(b(2, 1));
                 plan.r960 = Some(b(1, 0));
                 plan.clock = Some(b(2, 0));
@@ -655,7 +655,7 @@ pub fn run(run: &mut Run) -> Result<(), String> {
         }
         "C03" | "C14" => {
             if q {
-                plan.start = Some(b(3, 1));
+                plan.start = Some(b(4, 1));
                 plan.mid = Some(b(2, 1));
                 plan.r960 = Some(b(1, 1));
                 plan.clock = Some(b(2, 1));
